@@ -315,7 +315,7 @@ def verify_case(unit_name, case, prop=None, tier="quick", opts=None):
                 else:
                     canary_passed.append("CANARY PASSED: %s/%s on path %d" % (unit_name, n, pi))
         # witness: a concrete input of this path, run natively; outcome and clauses must agree
-        if all_proved and (pi < n_wit or rng.random() < 0.05) and not opts.get("no_witness") and getattr(unit, "witness", True):
+        if all_proved and (pi < n_wit or rng.random() < 0.05) and not opts.get("no_witness") and getattr(unit, "witness", True) and res.get("native_timeouts", 0) < 2:
             m = _any_model(ctx.pc, timeout_ms, _small_prefs(rec["syms"]))
             if m is not None:
                 inp = _jsonable(model_inputs(decls, rec["syms"], m))
@@ -328,8 +328,14 @@ def verify_case(unit_name, case, prop=None, tier="quick", opts=None):
                     # a native run must not leave library state behind for the next one (each witness speaks about
                     # one call from the initial state; state carried between calls is the subject of other units)
                     guard.restore(guard.diff())
+                if nout is not None and nout.kind == "raise" and isinstance(nout.exc, (MemoryError, RecursionError)):
+                    res["notes"].append("native witness hit a resource limit of this machine (%s): not evaluated" % type(nout.exc).__name__)
+                    nout = None
                 if nout is not None:
                     res["witnesses_checked"] += 1
+                    if nout.kind == "loopbound":
+                        # the real code did not return within the time box: two such runs per case are enough
+                        res["native_timeouts"] = res.get("native_timeouts", 0) + 1
                     # CPython is the ground truth: a clause that is false on the real code for these inputs is a
                     # violation whatever the symbolic verdict was (typically a callee that no longer satisfies the
                     # contract the modular proof used for it); it is replayed like any other counterexample
